@@ -425,7 +425,7 @@ class AsModelModel(Model):
 
     def getattr(self, ex, st, obj, name, node):
         src = ast.unparse(node)
-        if src in ("_wrappers.get", "_seen.add", "_seen.remove", "new.replace", "d.items", "'Self-referential structure detected in {!r}'.format",
+        if src in ("_wrappers.get", "_seen.add", "_seen.remove", "_seen.discard", "new.replace", "d.items", "'Self-referential structure detected in {!r}'.format",
                    "\"Don't know how to wrap {!r}: {!r}\".format"):
             return Obj("attr:" + src)
         return NotImplemented
@@ -456,6 +456,9 @@ class AsModelModel(Model):
         if src == "_seen.remove":
             ex.oblige(f"set.remove cannot raise KeyError: the id is still in _seen ({st.ghost.get('where', '')})", st,
                       z3.IsMember(args[0], st.globals["_seen"]))
+            st.globals["_seen"] = z3.SetDel(st.globals["_seen"], args[0])
+            return [Path(st, "normal", NONE)]
+        if src == "_seen.discard":
             st.globals["_seen"] = z3.SetDel(st.globals["_seen"], args[0])
             return [Path(st, "normal", NONE)]
         if src == "_wrappers.get":
